@@ -618,7 +618,7 @@ class Interp:
                     out.append(m)
             return out
         if isinstance(it, _Gen):
-            return it.items
+            return it.take()
         if isinstance(it, Obj) and it.fields.get("__namedtuple__"):
             return [it.fields[k] for k in it.fields["__dataclass_fields__"]]
         if type(it).__name__ in ("list_iterator", "tuple_iterator", "generator", "dict_keyiterator", "set_iterator"):
@@ -1312,7 +1312,7 @@ class Interp:
                     return o.join(items)
                 return Opaque("str")
             if name in ("extend", "update") and args and isinstance(args[0], _Gen):
-                args = [args[0].items] + list(args[1:])
+                args = [args[0].take()] + list(args[1:])
             if isinstance(o, list) and name in ("index", "count", "remove") and args and isinstance(args[0], (Obj, EnumVal)):
                 hits = [i for i, x in enumerate(o) if self.equals(x, args[0], depth)]
                 if name == "count":
@@ -1358,7 +1358,7 @@ class Interp:
                 if isinstance(a, ClassTok) and self.is_enum_class(a.name):
                     return self.iterate(a)
                 if isinstance(a, _Gen):
-                    return list(a.items)
+                    return list(a.take())
                 return a
             for a in list(args) + list(kwargs.values()):
                 if isinstance(a, Opaque):
@@ -1461,8 +1461,6 @@ class Interp:
             return len(v)
         if name in ("min", "max"):
             vals = list(self.iterate(args[0])) if len(args) == 1 else list(args)
-            if isinstance(args[0], _Gen):
-                vals = args[0].items
             if not vals:
                 if "default" in kwargs:
                     return kwargs["default"]
@@ -1675,11 +1673,18 @@ class Interp:
 
 
 class _Gen:
+    """a generator / iterator object: evaluated eagerly, consumed once (a second pass over the same object - e.g. a memoised
+    generator - sees nothing, as in Python)"""
+
     def __init__(self, items):
         self.items = list(items)
 
+    def take(self):
+        out, self.items = self.items, []
+        return out
+
     def __iter__(self):
-        return iter(self.items)
+        return iter(self.take())
 
 
 # ------------------------------------------------------------------------------------------
